@@ -12,7 +12,7 @@ impl Wake for Flag { fn wake(self: Arc<Self>) { self.0.store(true, Ordering::Seq
 static AT: AtomicU8 = AtomicU8::new(255);
 fn sched(n: u8) { if AT.load(Ordering::SeqCst) == n { AT.store(255, Ordering::SeqCst); CtrlC::__verif_on_interrupt() } }
 
-fn polls(ps: &[Value], wakers: &[u64]) -> Value {
+fn polls(ps: &[Value], wakers: &[u64], conn: &[bool]) -> Value {
     *__VERIF_SCHED.lock().unwrap() = Some(sched);
     CtrlC::__verif_reset();
     // two tasks' wakers: the accept loop may be polled with a different waker on a later poll (the future moved to another task)
@@ -30,6 +30,17 @@ fn polls(ps: &[Value], wakers: &[u64]) -> Value {
         AT.store(255, Ordering::SeqCst);
         if at == Some(0) { CtrlC::__verif_on_interrupt() }
         if let Some(k @ 1..=2) = at { AT.store(k, Ordering::SeqCst) }
+        // `conn`: a connection is waiting to be accepted when this poll begins — the accept loop's poll of this iteration finds `accept()` ready
+        // (each iteration of the loop polls a fresh `until_interrupt(listener.accept())`)
+        if conn.get(i).copied().unwrap_or(false) {
+            let mut f2 = Box::pin(c.until_interrupt(std::future::ready(())));
+            let r = f2.as_mut().poll(&mut cx);
+            let none = matches!(r, Poll::Ready(None));
+            if !none && at == Some(3) { CtrlC::__verif_on_interrupt() }
+            out.push(json!({"ready_none": none, "accepted": matches!(r, Poll::Ready(Some(()))), "woken": flag.0.load(Ordering::SeqCst)}));
+            if none { break }
+            continue
+        }
         let r = fut.as_mut().poll(&mut cx);
         let none = matches!(r, Poll::Ready(None));
         if !none && at == Some(3) { CtrlC::__verif_on_interrupt() }
@@ -40,26 +51,63 @@ fn polls(ps: &[Value], wakers: &[u64]) -> Value {
     json!({"polls": out})
 }
 
+// --- the wait group polled with a waker that counts how it is touched: at the n-th touch (clone / wake / wake_by_ref / drop) during a
+// poll, the oldest live session ends — the interleavings of "the last session ends" with the steps of `WaitGroup::poll`
+struct Touch { woken: AtomicBool, touches: std::sync::atomic::AtomicUsize }
+static FIRE_AT: std::sync::atomic::AtomicUsize = std::sync::atomic::AtomicUsize::new(0);
+static FIRED: AtomicBool = AtomicBool::new(false);
+thread_local! { static TOKENS: std::cell::RefCell<Vec<WaitGroup>> = std::cell::RefCell::new(vec![]); }
+fn touch(t: &Touch) {
+    let n = t.touches.fetch_add(1, Ordering::SeqCst) + 1;
+    if n == FIRE_AT.load(Ordering::SeqCst) && !FIRED.swap(true, Ordering::SeqCst) {
+        let tok = TOKENS.with(|v| { let mut v = v.borrow_mut(); if v.is_empty() { None } else { Some(v.remove(0)) } });
+        if let Some(tok) = tok { tok.done() }
+    }
+}
+mod tw {
+    use super::{touch, Touch};
+    use std::sync::{atomic::Ordering, Arc};
+    use std::task::{RawWaker, RawWakerVTable};
+    unsafe fn clone(p: *const ()) -> RawWaker { let a = Arc::from_raw(p as *const Touch); let b = a.clone(); std::mem::forget(a); touch(&b); RawWaker::new(Arc::into_raw(b) as *const (), &VT) }
+    unsafe fn wake(p: *const ()) { let a = Arc::from_raw(p as *const Touch); a.woken.store(true, Ordering::SeqCst); touch(&a) }
+    unsafe fn wake_by_ref(p: *const ()) { let a = Arc::from_raw(p as *const Touch); a.woken.store(true, Ordering::SeqCst); touch(&a); std::mem::forget(a) }
+    unsafe fn drop(p: *const ()) { let a = Arc::from_raw(p as *const Touch); touch(&a) }
+    pub static VT: RawWakerVTable = RawWakerVTable::new(clone, wake, wake_by_ref, drop);
+    pub fn waker(t: Arc<Touch>) -> std::task::Waker { unsafe { std::task::Waker::from_raw(RawWaker::new(Arc::into_raw(t) as *const (), &VT)) } }
+}
+
 fn wg(ops: &[Value]) -> Value {
     let root = WaitGroup::new();
-    let mut tokens: Vec<WaitGroup> = vec![];
-    let flag = Arc::new(Flag(AtomicBool::new(false)));
-    let waker = flag.clone().into();
+    TOKENS.with(|v| { for t in v.borrow_mut().drain(..) { std::mem::forget(t) } });
+    let t = Arc::new(Touch { woken: AtomicBool::new(false), touches: std::sync::atomic::AtomicUsize::new(0) });
+    let waker = tw::waker(t.clone());
     let mut cx = Context::from_waker(&waker);
     let mut out = vec![];
     // `howl` awaits the root by value; polling it by reference through Pin is the same `poll`
     let mut root = Box::pin(root);
     for o in ops {
-        match o.as_str().unwrap() {
-            "add" => tokens.push(root.add()),
-            "done" => { let t = tokens.remove(0); t.done() }
-            "drop" => { let t = tokens.remove(0); drop(t) }          // a session task that ends by unwinding: its handle is dropped, `done` is never called
-            "poll" => out.push(matches!(root.as_mut().poll(&mut cx), Poll::Ready(()))),
+        let o = o.as_str().unwrap();
+        match o {
+            "add" => { let tok = root.add(); TOKENS.with(|v| v.borrow_mut().push(tok)) }
+            "done" => { let tok = TOKENS.with(|v| v.borrow_mut().remove(0)); tok.done() }
+            "drop" => { let tok = TOKENS.with(|v| v.borrow_mut().remove(0)); drop(tok) }          // a session task that ends by unwinding: its handle is dropped, `done` is never called
+            _ if o.starts_with("poll") => {
+                let at: usize = o.strip_prefix("poll@").and_then(|n| n.parse().ok()).unwrap_or(0);
+                t.woken.store(false, Ordering::SeqCst);           // the task is being polled: its wake has been consumed
+                t.touches.store(0, Ordering::SeqCst);
+                FIRED.store(false, Ordering::SeqCst);
+                FIRE_AT.store(at, Ordering::SeqCst);
+                let ready = matches!(root.as_mut().poll(&mut cx), Poll::Ready(()));
+                FIRE_AT.store(0, Ordering::SeqCst);
+                out.push(json!({"ready": ready, "woken": t.woken.load(Ordering::SeqCst), "fired": FIRED.load(Ordering::SeqCst)}));
+            }
             x => panic!("harness: wg op {x}"),
         }
     }
+    let final_woken = t.woken.load(Ordering::SeqCst);
+    TOKENS.with(|v| { for t in v.borrow_mut().drain(..) { std::mem::forget(t) } });
     std::mem::forget(root);     // dropping the root would decrement the counter below zero; `howl` returns right after
-    json!({"polls": out})
+    json!({"polls": out, "final_woken": final_woken})
 }
 
 /// the REAL `howl` in a child process (the Ctrl-C handler can be installed once per process): k keep-alive sessions (one of them may have
@@ -171,5 +219,6 @@ pub fn run_case(c: &Value) -> Value {
     if let Some(sc) = c.get("howl") { return howl(sc) }
     if let Some(w) = c.get("wg").and_then(Value::as_array) { return wg(w) }
     let wakers: Vec<u64> = c.get("wakers").and_then(Value::as_array).map(|a| a.iter().map(|x| x.as_u64().unwrap_or(0)).collect()).unwrap_or_default();
-    polls(c["polls"].as_array().unwrap(), &wakers)
+    let conn: Vec<bool> = c.get("conn").and_then(Value::as_array).map(|a| a.iter().map(|x| x.as_bool().unwrap_or(false)).collect()).unwrap_or_default();
+    polls(c["polls"].as_array().unwrap(), &wakers, &conn)
 }
